@@ -530,3 +530,81 @@ def backlog_script(seed, idx, fam="backlog"):
     st.append(sleep(14 * SEC))
     return script(f"{fam}/{idx}", seed * 47 + idx, socks, st, net={"latency_us": 1000},
                   info={"family": fam, "backlog": backlog, "nsyn": nsyn}, mute=["poll"])
+
+# ------------------------------------------------------------------ hostile family (C10)
+def hostile_script(seed, idx, fam="hostile"):
+    """A legitimate conversation A<->B while the raw peer P throws hostile datagrams at A: malformed, truncated,
+    absurd fields, acknowledging data never sent, selective ACKs of any length, types illegal in the current
+    state, unknown connection ids."""
+    rng = random.Random(seed * 1000003 + idx * 29 + 13)
+    link = rng.choice([576, 1500])
+    socks = [sock("A", A_ADDR, rand=[500, 1000, 3000], link_mtu=link, rx_buf=rng.choice([4096, 65536]), tx_max=rng.choice([4096, 65536])),
+             sock("B", B_ADDR, rand=[20000, 2000, 4000], link_mtu=link),
+             sock("P", P_ADDR, raw=True)]
+    st = connect_steps(ea="x", eb="y")
+    st += [{"op": "read", "ep": "x"}, {"op": "read", "ep": "y"}, {"op": "write", "ep": "x", "n": 3000}]
+    # the hostile peer's own connection with A (so that its packets reach a live connection)
+    mode = rng.choice(["passive", "active", "none"])
+    if mode == "passive":
+        st += [{"op": "accept", "sock": "A", "ep": "h"}, peer("syn", cid=rng.choice([300, 65535]), seq=rng.choice([7000, 65534]), to="A"),
+               sleep(1100), peer("ack"), sleep(1100)]
+    elif mode == "active":
+        st += [{"op": "connect", "sock": "A", "to": "P", "ep": "h"}, sleep(1100), peer("synack", seq=rng.choice([9000, 65535])), sleep(1100)]
+    if mode != "none":
+        st += [{"op": "read", "ep": "h"}, {"op": "write", "ep": "h", "n": rng.choice([0, 1, 2000])}, sleep(1100)]
+    def hostile_one():
+        k = rng.random()
+        if k < 0.12:
+            n = rng.choice([0, 1, 5, 19, 20, 21, 40, 100])
+            return peer("raw", bytes=[rng.randrange(256) for _ in range(n)], to="A")
+        if k < 0.20:   # valid-looking header, broken version / type / extension chain
+            b = [rng.choice([0x01, 0x21, 0x11, 0x31, 0x41, 0x51, 0xF1, 0x20, 0x22, 0x2F]), rng.choice([0, 1, 2, 3, 255])] + [rng.randrange(256) for _ in range(18)]
+            b += [rng.choice([0, 1, 3, 255]), rng.choice([0, 1, 4, 8, 36, 255])] + [rng.randrange(256) for _ in range(rng.choice([0, 1, 4, 8, 36]))]
+            return peer("raw", bytes=b, patch_cid=rng.random() < 0.7, patch_seq=rng.random() < 0.5, to="A")
+        if k < 0.32:   # acknowledging data never sent / stale
+            return peer("hdr", type=2, ack_rel=rng.choice([1, 2, 5, 1000, 30000, 40000, -1, -1000, -40000]), to="A")
+        if k < 0.44:   # selective ACK of any length / any bits
+            n = rng.choice([0, 1, 3, 4, 8, 9, 36, 40])
+            bits = rng.choice([[255] * n, [0] * n, [rng.randrange(256) for _ in range(n)]])
+            return peer("hdr", type=rng.choice([2, 2, 0, 1]), sack_bytes=bits, ack_rel=rng.choice([0, 0, -1, 3]),
+                        plen=0, to="A")
+        if k < 0.54:   # sequence numbers anywhere
+            return peer("hdr", type=0, seq_rel=rng.choice([0, 1, 2, 63, 64, 65, 1000, 2000, 30000, -1, -5, -30000]),
+                        plen=rng.choice([1, 100, 1400, 9000]), to="A")
+        if k < 0.62:   # types illegal in the state
+            return peer("hdr", type=rng.choice([4, 4, 3, 1]), seq_rel=rng.choice([0, 1, 5, -1]), ack_rel=rng.choice([0, 1, -1]), to="A")
+        if k < 0.70:   # unknown connection ids
+            return peer("hdr", type=rng.choice([0, 1, 2, 3]), cid_rel=rng.choice([1, -1, 2, 1000]), plen=0, to="A")
+        if k < 0.76:
+            return peer("fin", ahead=rng.choice([0, 1, 5, -1]), to="A")
+        if k < 0.82:
+            return peer("state_as_fin", to="A")
+        if k < 0.90:   # payload on a non-data type / zero-length data
+            return peer("hdr", type=rng.choice([2, 1, 3, 4]), plen=rng.choice([1, 100]), to="A")
+        if k < 0.95:
+            return peer("hdr", type=0, plen=0, to="A")
+        return peer("reset", rel=rng.choice([0, 1, -1]), to="A")
+    for r in range(rng.choice([10, 30, 60])):
+        st.append(hostile_one())
+        if rng.random() < 0.3:
+            st.append(sleep(rng.choice([0, 500, 1100, 50000])))
+        if r % 10 == 5:
+            st += [{"op": "write", "ep": "x", "n": 2000}, {"op": "write", "ep": "y", "n": 500}]
+        if mode != "none" and rng.random() < 0.1:
+            st.append({"op": "write", "ep": "h", "n": rng.choice([1, 600])})
+    # the socket must still serve connect / accept
+    st += [{"op": "accept", "sock": "A", "ep": "z2"}, {"op": "connect", "sock": "B", "to": "A", "ep": "z1"},
+           {"op": "wait", "ep": "z1", "what": "connect", "timeout_us": 2 * SEC},
+           {"op": "write", "ep": "z1", "n": 10}, {"op": "read", "ep": "z2", "n": 10},
+           {"op": "wait", "ep": "z2", "timeout_us": 5 * SEC},
+           {"op": "flush", "ep": "x"}, {"op": "flush", "ep": "y"},
+           {"op": "wait", "ep": "x", "what": "flush", "timeout_us": 30 * SEC},
+           {"op": "wait", "ep": "y", "what": "flush", "timeout_us": 30 * SEC},
+           {"op": "shutdown", "ep": "x"},
+           {"op": "wait", "ep": "y", "what": "read", "timeout_us": 30 * SEC},
+           {"op": "wait", "ep": "x", "what": "read", "timeout_us": 30 * SEC}]
+    for e in ["x", "y", "z1", "z2"] + (["h"] if mode != "none" else []):
+        st.append({"op": "drop", "ep": e})
+    st.append(sleep(25 * SEC))
+    return script(f"{fam}/{idx}", seed * 53 + idx, socks, st, net={"latency_us": 1000},
+                  info={"family": fam, "mode": mode, "innocent": B_ADDR, "backlog": backlog_from_source()})
